@@ -399,6 +399,65 @@ pub fn run(r: &mut Report, ctx: &Ctx) {
                 );
             }
         }
+        if ctx.want("lattice-qratio") {
+            // states whose quartiles sit on Q-ratio rounding boundaries: a permissive flag must not change the arithmetic
+            let mut q3s: Vec<u32> = (1..=64).collect();
+            for k in 8..32u32 {
+                q3s.push(1u32 << k);
+                q3s.push((1u32 << k) - 1);
+                q3s.push((1u32 << k) + 1);
+            }
+            for i in 0..400u64 {
+                q3s.push((3 + i * 83_887) as u32);
+                q3s.push(((1u64 << 25) + i * 10_653_533) as u32);
+            }
+            q3s.sort();
+            q3s.dedup();
+            r.section(
+                "lattice-qratio",
+                "injected states whose quartiles (q, q, q3) sit on Q-ratio rounding boundaries (q = floor(m*q3/100) + {-1,0,1} for m in 0..=100, q3 small, around powers of two and strided to 2^32): the lattice law on the 32 real finalizations, so that a permissive flag cannot silently change the hash of an accepted input through the Q-ratio arithmetic; non-trivial = states where the integer and f32 formulas differ",
+                &format!("{} q3 values x 101 ratios x 3 offsets x 32 options", q3s.len()),
+                true,
+                |s| {
+                    let q3s = &q3s;
+                    s.acc = par_for(q3s.len() as u64 * 101, 64, |idx, acc| {
+                        let q3 = q3s[(idx / 101) as usize];
+                        let m = idx % 101;
+                        let base = (m * q3 as u64 / 100) as i64;
+                        for d in -1i64..=1 {
+                            let q = (base + d).clamp(0, q3 as i64) as u32;
+                            let (v, nb) = if (idx + d as u64) % 2 == 0 { (1usize, 128usize) } else { (0usize, 48usize) };
+                            let qn = nb / 4;
+                            let mut buckets = [0x0101_0101u32; 256];
+                            for i in 0..nb {
+                                let cls = ((i * 37 + 11) % nb) / qn;
+                                buckets[i] = [q, q, q3, q3][cls];
+                            }
+                            let p = tlsh::verif::GeneratorParts { buckets, len: 70_000, checksum: [9, 0, 0], tail: [2, 2, 2, 2], tail_len: 4 };
+                            acc.evals += 1;
+                            acc.transitions += 32;
+                            if ref_qratio_int(q, q3) != ref_qratio_f32(q, q3) {
+                                acc.nontrivial += 1;
+                            }
+                            fn go<V: Variant>(p: &tlsh::verif::GeneratorParts) -> Result<u64, String> {
+                                judge_gen::<V>(&V::gen_from_parts(p))
+                            }
+                            let res = with_variant!(v, go(&p));
+                            match res {
+                                Ok(fp) => acc.outcomes.insert(fp),
+                                Err(e) => {
+                                    acc.fail(idx * 3 + (d + 1) as u64, "lattice-qratio", format!("quartiles ({q},{q},{q3}): {e}"), json!({"kind": "inject", "variant": VARIANT_NAMES[v], "parts": hooked::parts_json(&p)}));
+                                    return;
+                                }
+                            }
+                        }
+                        if idx % 5003 == 0 {
+                            acc.sample(idx, || json!({"q3": q3, "ratio_percent": m}));
+                        }
+                    });
+                },
+            );
+        }
         if ctx.want("length-error-boundaries") {
             let mut ns: Vec<u32> = Vec::new();
             for c in [0u64, 10, 50, 128, MAX_LEN, u32::MAX as u64] {
